@@ -313,6 +313,21 @@ def run_case(case):
                 res.violate("row-sums-differ-from-excess-distribution", topology=t, ctx=ctx); ok = False; break
         if not ok:
             break
+        if rng.random() < 0.3 and hasattr(ex, "count_edge_types") and hasattr(ex, "get_ejk"):
+            # the extractor's public steps used one by one, as get_ejks() itself uses them: count the edges per topology (once or twice - a
+            # caller who is not sure it has been done does it again), then ask for ONE topology's matrix
+            t = rng.choice(used)
+            try:
+                for _ in range(rng.choice([1, 2, 2])):
+                    ex.count_edge_types()
+                one = ex.get_ejk(used.index(t), t)
+            except Exception:      # noqa: BLE001 - the steps are a convenience, not every implementation has to offer them in this form
+                res.count("step_by_step_calls_that_raised")
+                one = None
+            if isinstance(one, dict):
+                res.count("single_topology_matrices_obtained_step_by_step")
+                if not compare_matrix(res, one, refs[gi][t], T, dict(ctx, topology=t, obtained="count_edge_types() then get_ejk()")):
+                    break
         snap_now = (copy.deepcopy(ej), {t: sorted(map(tuple, v)) for t, v in keys.items()})
         if x in first:
             res.count("repeat_calls")
